@@ -426,7 +426,7 @@ def run_wc_once(case, plan):
     d = drive(wc, loop, plan, case.get('media', ['copy']), True)
     wc, loop, failure = d.proc, d.loop, d.failure
     out = {'bounds': d.bounds, 'idem': d.idem, 'restored': d.restored, 'diverged': d.diverged,
-           'calls': wc.ctx.__dict__.get('_trace', [['s', 'ctx-lost']]), 'ctx': user_ctx(wc),
+           'calls': wc.ctx.__dict__.get('_log', [['s', 'ctx-lost']]), 'ctx': user_ctx(wc),
            'outs': [[k, jv(v)] for k, v in wc.outputs.items()], 'pi': wc.ctx.__dict__.get('_pi', 0),
            'ri': wc.ctx.__dict__.get('_ri', 0), 'seen': seen_of(wc),
            'state': wc.state.value}
@@ -452,7 +452,7 @@ def run_proc_once(case, plan):
     d = drive(p, loop, plan, case.get('media', ['copy']), False, resume=case['resume'])
     p, loop, failure = d.proc, d.loop, d.failure
     out = {'bounds': [b['state'] for b in d.bounds], 'idem': d.idem, 'restored': d.restored,
-           'trace': [[t[0], jv(t[1]), [[k, jv(v)] for k, v in t[2]]] for t in p.ctx.__dict__.get('_trace', [['ctx-lost', [], []]])],
+           'trace': [[t[0], jv(t[1]), [[k, jv(v)] for k, v in t[2]]] for t in p.ctx.__dict__.get('_log', [['ctx-lost', [], []]])],
            'ctx': user_ctx(p), 'outs': [[k, jv(v)] for k, v in p.outputs.items()], 'state': p.state.value,
            'seen': seen_of(p)}
     if failure:
